@@ -75,7 +75,15 @@ def classes():
         def _sensitivity(self, dy):
             s, x = [sg.state for sg in self.sig_in]
             return np.sum(dy * x), dy * s
-    _cls.update(Sq=Sq, Lin=Lin, Mul=Mul, Fan=Fan, SMul=SMul, pym=pym)
+    class Diff(pym.Module):
+        def _response(self, x):
+            return x[0] - x[1]
+
+        def _sensitivity(self, dy):
+            g = np.zeros_like(self.sig_in[0].state)
+            g[0], g[1] = dy, -dy
+            return g
+    _cls.update(Sq=Sq, Lin=Lin, Mul=Mul, Fan=Fan, SMul=SMul, Diff=Diff, pym=pym)
     return _cls
 
 
@@ -107,6 +115,12 @@ def build(prog, a0, b0):
             base = pym.Signal(f's{len(sigs)}', np.zeros(3))
             outs = [base]
             m = c['Sq'](si, base[1:3])
+        elif name == 'Diff3':
+            m = c['Diff'](si, outs)
+        elif name == 'RevIn':
+            m = c['Sq'](si[0][::-1], outs)
+        elif name == 'PermIn':
+            m = c['Sq'](si[0][np.array([2, 0, 1])], outs)
         elif name == 'Cat':
             m = pym.ConcatSignal(si, outs)
         elif name == 'SMul3':
